@@ -70,8 +70,8 @@ func c11channel(v *verifrt.T, name string, allowPlus bool) (string, []uint8, boo
 	return string(b), lv, hash
 }
 
-func c11type(v *verifrt.T) (string, uint8) {
-	n := v.Choice(v.Bound("typelen")+1, "typelen")
+func c11type(v *verifrt.T, bound string) (string, uint8) {
+	n := v.Choice(v.Bound(bound)+1, "typelen")
 	letters := "rwslpexz" // z: a letter without meaning
 	bits := [8]uint8{security.AllowRead, security.AllowWrite, security.AllowStore, security.AllowLoad, security.AllowPresence, security.AllowExtend, security.AllowExecute, 0}
 	var b []byte
@@ -106,7 +106,7 @@ func VerifC11Create(v *verifrt.T) {
 	v.Assume(parent.Permissions()&security.AllowExtend == 0 || parent.Permissions() == security.AllowMaster)
 	pname := e.ciph.add(parent)
 	channel, lv, hash := c11channel(v, "c", true)
-	typ, wantAccess := c11type(v)
+	typ, wantAccess := c11type(v, "typelen")
 	ttl := v.I32("ttl")
 	conn, _ := hconn(e.svc, 0)
 	t0 := time.Now().Unix()
@@ -165,7 +165,7 @@ func VerifC11Extend(v *verifrt.T) {
 	v.Assert(parent.SetTarget(ptarget) == nil, "C11.extend.parent-target-ok")
 	pname := e.ciph.add(parent)
 	channel, _, hash := c11channel(v, "c", false)
-	typ, wantAccess := c11type(v)
+	typ, wantAccess := c11type(v, "xtypelen")
 	ttl := v.I32("ttl")
 	conn, _ := hconn(e.svc, 0)
 	t0 := time.Now().Unix()
